@@ -175,6 +175,9 @@ pub enum Op {
     Predict(u8),
     /// overwrite one boundary label through boundaries_mut()
     Edit(u16, u8),
+    /// fill_tags() without a prediction since the last update: the update (successful or
+    /// failed) has detached the predictor, so nothing may change
+    FillTags,
 }
 
 fn predictors() -> &'static [vaporetto::Predictor] {
@@ -209,6 +212,8 @@ pub fn test_history(h: &History) -> TestResult {
         None => Sentence::default(),
     };
     let mut prev_predicted = false;
+    // Some(i): predictor i was the last thing that touched the sentence's predictor link
+    let mut linked: Option<u8> = None;
     let mut prev = util::observe(&s);
     let mut prev_failed = false;
     let mut nontrivial = false;
@@ -272,8 +277,28 @@ pub fn test_history(h: &History) -> TestResult {
                 }
                 prev = o;
                 prev_predicted = false;
+                linked = None;
+            }
+            Op::FillTags => {
+                match linked {
+                    // documented: fill_tags panics if the linked predictor cannot predict tags
+                    Some(0) => {}
+                    Some(_) => {
+                        s.fill_tags();
+                        let o = util::observe(&s);
+                        util::check_consistent(&o).map_err(|e| format!("after op {k} {op:?}: {e}"))?;
+                        prev = o;
+                    }
+                    None => {
+                        s.fill_tags();
+                        let o = util::observe(&s);
+                        ensure_eq!(&o, &prev, "op {k}: fill_tags changed a sentence that has not been predicted since its last update");
+                        info = info.class(true, "fill_tags-without-prediction");
+                    }
+                }
             }
             Op::Predict(i) => {
+                linked = Some(*i % 2);
                 let p = &predictors()[*i as usize % 2];
                 p.predict(&mut s);
                 if *i % 2 == 1 {
@@ -340,6 +365,7 @@ pub fn history_strategy() -> impl Strategy<Value = History> {
                 2 => (fmt_strategy(), any::<u16>()).prop_map(|(f, x)| Op::Reparse(f, x)),
                 2 => (0u8..2).prop_map(Op::Predict),
                 1 => (any::<u16>(), 0u8..3).prop_map(|(s, l)| Op::Edit(s, l)),
+                2 => Just(Op::FillTags),
             ],
             1..=8,
         ),
